@@ -132,6 +132,7 @@ func runC03(e *emitter, tier string, seed uint64) {
 		{"single", func(s string) templ.Component { return tmpl.ScriptSingle(s) }},
 		{"double", func(s string) templ.Component { return tmpl.ScriptDouble(s) }},
 		{"backtick", func(s string) templ.Component { return tmpl.ScriptBacktick(s) }},
+		{"backtick-dollar", func(s string) templ.Component { return tmpl.ScriptBacktickDollar(s) }},
 		{"onclick", func(s string) templ.Component { return tmpl.OnClick(s, []any{s, 1}) }},
 		{"scriptcall", func(s string) templ.Component { return tmpl.ScriptCall(s, map[string]any{"k": s}) }},
 		{"jsfunc-on", func(s string) templ.Component { return tmpl.JSFuncOn("console.log", s) }},
